@@ -216,6 +216,16 @@ def build_harness(ctx, pkg, name=None, race=False, tags="verif", overlay=None, t
         cmd.append("-race")
     if overlay:
         cmd += ["-overlay", overlay]
+    if REPO != "/repo":
+        # development only (bin/seedmatrix runs seeded changes in parallel scratch clones): same harness, other replace target
+        md = os.path.join(ctx.work, "altmod")
+        os.makedirs(md, exist_ok=True)
+        open(os.path.join(md, "go.mod"), "w").write(open(os.path.join(HARNESS, "go.mod")).read().replace("=> /repo", "=> " + REPO))
+        for gs in (os.path.join(REPO, "go.sum"), os.path.join(HARNESS, "go.sum")):
+            if os.path.exists(gs):
+                shutil.copy(gs, os.path.join(md, "go.sum"))
+                break
+        cmd += ["-modfile", os.path.join(md, "go.mod")]
     cmd.append("./cmd/" + pkg)
     t0 = time.time()
     p = subprocess.run(cmd, cwd=HARNESS, env=goenv(), stdout=subprocess.PIPE, stderr=subprocess.STDOUT, text=True)
